@@ -35,6 +35,7 @@ struct netbuf_read {
 	size_t buflen;			/* Length of buf. */
 	size_t bufpos;			/* Position of read pointer in buf. */
 	size_t datalen;			/* Position of write pointer in buf. */
+	size_t waitlen;			/* Bytes wanted by _wait. */
 };
 
 static int callback_success(void *);
@@ -136,6 +137,34 @@ err0:
 	return (-1);
 }
 
+/*
+ * Launch a read of at least one byte into the free space of the buffer.  We
+ * ask for one byte at a time (and loop in callback_read) so that a read
+ * which is cancelled has never consumed data we have not accounted for.
+ */
+static int
+readmore(struct netbuf_read * R)
+{
+
+	if (R->ssl) {
+		if ((R->read_cookie = (netbuf_read_ssl_func)(R->ssl,
+		    &R->buf[R->datalen], R->buflen - R->datalen, 1,
+		    callback_read, R)) == NULL)
+			goto err0;
+	} else {
+		if ((R->read_cookie = network_read(R->s, &R->buf[R->datalen],
+		    R->buflen - R->datalen, 1, callback_read, R)) == NULL)
+			goto err0;
+	}
+
+	/* Success! */
+	return (0);
+
+err0:
+	/* Failure! */
+	return (-1);
+}
+
 /**
  * netbuf_read_wait(R, len, callback, cookie):
  * Wait until ${R} has ${len} or more bytes of data buffered or an error
@@ -176,17 +205,9 @@ netbuf_read_wait(struct netbuf_read * R, size_t len,
 	}
 
 	/* Read data into the buffer. */
-	if (R->ssl) {
-		if ((R->read_cookie = (netbuf_read_ssl_func)(R->ssl,
-		    &R->buf[R->datalen], R->buflen - R->datalen,
-		    R->bufpos + len - R->datalen, callback_read, R)) == NULL)
-			goto err0;
-	} else {
-		if ((R->read_cookie = network_read(R->s, &R->buf[R->datalen],
-		    R->buflen - R->datalen, R->bufpos + len - R->datalen,
-		    callback_read, R)) == NULL)
-			goto err0;
-	}
+	R->waitlen = len;
+	if (readmore(R))
+		goto err0;
 
 done:
 	/* Success! */
@@ -235,6 +256,13 @@ callback_read(void * cookie, ssize_t lenread)
 
 	/* We've got more data. */
 	R->datalen += (size_t)lenread;
+
+	/* If we don't have enough data yet, keep reading. */
+	if (R->datalen - R->bufpos < R->waitlen) {
+		if (readmore(R))
+			goto failed;
+		return (0);
+	}
 
 	/* Perform callback. */
 	return ((R->callback)(R->cookie, 0));
